@@ -2,7 +2,9 @@ import daemon
 
 
 def run(ctx):
-    return daemon.run(ctx, "C09", "c09", {"gc", "pod_vanished", "gc_while_request_inside", "rpc_during_gc", "api_failure", "sticky", "detach"}, [
+    return daemon.run(ctx, "C09", "c09", {"gc", "pod_vanished", "gc_while_request_inside", "rpc_during_gc", "api_failure", "sticky", "detach", "gc_cleanup_fault"}, [
         "gcPods is called directly (the 5-minute timer is not waited for); GC runs in non-CRD mode (cleanRuntimeNode is out of scope here)",
+        "transient cleanup fault: one GC pass runs with RLIMIT_NOFILE (soft) at 0, so every netlink call of the rule cleanup fails; the pass is "
+        "logged as disturbed and is not counted towards 'within two passes'; healthy passes follow",
         "'a pod whose cleanup cannot proceed' has no legitimate instance in this harness: a record whose interface has no device must be tolerated "
         "(daemon_linux.go gcPolicyRoutes is meant to), so every vanished pod is owed collection within two undisturbed passes"])
